@@ -213,6 +213,7 @@ type evalInfo struct {
 	// a resolver-independent condition is false and the destination group could only be decided
 	// through a failing resolver: the route simply does not match
 	cheapFalseResolverFails bool
+	degenerate              []string // labels for degenerate list members met by this request
 	fromRepr                string
 	toRepr                  string
 	port0VsSet              string // "", "from-<repr>", "to-<repr>"
@@ -239,6 +240,39 @@ func (w *world) evalRoute(rm *routeModel, q *request) (uint8, evalInfo) {
 		return v
 	}
 
+	deg := func(l string) { info.degenerate = append(info.degenerate, l) }
+	invSuffix := func(flag bool) string {
+		if flag {
+			return "/inverted"
+		}
+		return ""
+	}
+	if rc.Client == "reject" && (rc.Network == "tcp" && q.UDP || rc.Network == "udp" && !q.UDP) {
+		deg("reject-route-network-restricted/other-network-request")
+	}
+	if len(rc.FromServers) > 0 && slices.Contains(rc.FromServers, "") {
+		if w.servers[q.Server] == "" {
+			deg("fromServers-contains-empty/request-from-unnamed-server" + invSuffix(rc.InvertFromServers))
+		}
+	}
+	if len(rc.FromUsers) > 0 && slices.Contains(rc.FromUsers, "") {
+		// plain membership: "" is an ordinary list member (requests without an authenticated user)
+		if q.User == "" {
+			deg("fromUsers-contains-empty/anonymous-request" + invSuffix(rc.InvertFromUsers))
+		} else {
+			deg("fromUsers-contains-empty/named-request")
+		}
+	}
+	if slices.Contains(rc.ToDomains, "") {
+		deg("toDomains-contains-empty")
+	}
+	for _, ps := range [][]netip.Prefix{rc.FromPrefixes, rc.ToPrefixes, rc.ToMatchedDomainExpectedPrefixes} {
+		for _, p := range ps {
+			if p.Bits() == 0 {
+				deg("prefix-/0")
+			}
+		}
+	}
 	if len(rc.FromServers) > 0 {
 		acc = and3(acc, inv(b3(slices.Contains(rc.FromServers, w.servers[q.Server])), rc.InvertFromServers))
 	}
